@@ -145,6 +145,18 @@ class StmtGen:
             return J.For(J.TName(v), N("tr"), [J.Out(J.Getattr(N(v), "n")), J.Text("("), J.Out(J.Call(N("loop"), [J.Getattr(N(v), "k")])),
                                                   J.Text(")")] + ([J.Out(J.Getattr(N("loop"), "depth"))] if rnd.random() < 0.4 else []),
                          recursive=True)
+        if r < 0.12 and "stateful" in self.f:
+            k = rnd.random()
+            if k < 0.4 and inloop:
+                return J.Out(J.Call(J.Getattr(N("loop"), "changed"), [self.atom(True) for _ in range(rnd.choice([1, 1, 2]))]))
+            if k < 0.7:
+                return J.If([C(True)], [[J.Set("cy", J.Call(N("cycler"), [C(1), C("o<"), N(self.name())][: rnd.choice([2, 3])])),
+                                         J.For(J.TName(self.name()), J.List([C(1), C(2), C(3)]),
+                                               [J.Out(J.Getattr(N("cy"), "current")), J.Out(J.Call(J.Getattr(N("cy"), "next"))), J.Text(",")]),
+                                         J.Out(J.Call(J.Getattr(N("cy"), "reset"))), J.Out(J.Getattr(N("cy"), "current"))]])
+            return J.If([C(True)], [[J.Set("jn", J.Call(N("joiner"), [C(rnd.choice(["|", "<", ", "]))] if rnd.random() < 0.8 else [])),
+                                     J.For(J.TName(self.name()), rnd.choice([N(self.name()), J.List([C(1), C(2)])]),
+                                           [J.Out(J.Call(N("jn"))), J.Out(self.atom(True))])]])
         if r < 0.22:
             return J.Out(self.expr(2, inloop))
         if r < 0.27:
@@ -631,7 +643,10 @@ class ExprGen:
         if r < 0.65: return J.Bin("+", self.glist(d - 1), self.glist(d - 1))
         if r < 0.75: return J.Call(N("range"), [self.pick(C(0), C(2), C(3))])
         if r < 0.85: return J.Filter(self.glist(d - 1), self.pick("list", "sort"))
-        if r < 0.92: return self.pick(J.Getattr(N("d1"), "b"), J.Getitem(N("d1"), C("b")), J.Getitem(N("o1"), C("c")))
+        if r < 0.9: return self.pick(J.Getattr(N("d1"), "b"), J.Getitem(N("d1"), C("b")), J.Getitem(N("o1"), C("c")))
+        if r < 0.96:
+            b = lambda: self.pick(None, C(0), C(1), C(2), J.Neg(C(1)), N("i1"), N("z"), C(7))
+            return J.Slice(self.glist(d - 1), b(), b())
         return J.Bin("*", self.glist(d - 1), self.pick(C(0), C(2)))
 
     def gany(self, d):
